@@ -684,6 +684,26 @@ func runC07E2E(c *Ctx, emit func(gen string, in, obs Term, nt bool, tags ...stri
 			run("e2e-builds-"+sh.name, e)
 		}
 	}
+	// (1c) more than 128 files on one side of the command line (round 6 shapes)
+	for _, sh := range c07ManyShapes() {
+		var ks []string
+		switch sh.name {
+		case "sum-129":
+			ks = kinds
+		case "base-130-minus-128", "diff-base-1-minus-129":
+			ks = []string{"cli"}
+		}
+		for _, kind := range ks {
+			e := &c07E2E{kind: kind, t: sh.t}
+			for i := range sh.t.srcs {
+				e.srcNames = append(e.srcNames, fmt.Sprintf("s%03d.prof", i))
+			}
+			for i := range sh.t.bases {
+				e.baseNames = append(e.baseNames, fmt.Sprintf("b%03d.prof", i))
+			}
+			run("e2e-many-"+sh.name, e)
+		}
+	}
 	// (2) random tuples x random names x the three entry points
 	modes := []struct {
 		nbase          int
